@@ -13,7 +13,6 @@ import (
 
 func customRoutes(cfg *config.Custom, ch chan string) {
 
-	var Routes *[]route.RouteDef
 	var trans *http.Transport
 	var URL string
 
@@ -65,6 +64,10 @@ func customRoutes(cfg *config.Custom, ch chan string) {
 			continue
 		}
 		log.Printf("[DEBUG] Custom Registry begin decoding json %s \n", time.Now())
+		// decode into a fresh value: decoding into the definitions of the
+		// previous poll keeps their weight, tags and opts for every field
+		// the new response does not mention
+		var Routes *[]route.RouteDef
 		decoder := json.NewDecoder(resp.Body)
 		err = decoder.Decode(&Routes)
 		if err != nil {
